@@ -199,6 +199,13 @@ Fixpoint j_unique (R : list redeemer) : bool :=
 
 Inductive verdict := Holds | FailsKnown (class : N) | FailsUnknown.
 
+(* how the parts combine: a failing part that no known class explains is an unknown failure *)
+Definition verdict_of (core spend_ok prop_ok k1 k3 k2 : bool) : verdict :=
+  if core && spend_ok && prop_ok then Holds
+  else if negb core || (negb spend_ok && negb (k1 || k3)) || (negb prop_ok && negb k2) then FailsUnknown
+  else if negb spend_ok then FailsKnown (if k1 then 1 else 3)
+  else FailsKnown 2.
+
 Definition judge (ops : list op) (b : built) : verdict :=
   let R := b_redeemers b in
   let io := ops_in ops in let sf := spend_wits (spend_final io) in let ik := map in_op_key io in
@@ -229,8 +236,4 @@ Definition judge (ops : list op) (b : built) : verdict :=
   let spend_ok := j_expected TSpend ik sf six R && j_unique (filter (fun r => tag_code (r_tag r) =? 0) R) in
   (* proposals: redeemers only on proposals with a policy hash *)
   let prop_ok := j_locked pk pf prop_has_script_hash in
-  let k1 := known_collateral_plutus ops in let k3 := known_stale_spend ops in let k2 := known_prop_nonscript ops in
-  if core && spend_ok && prop_ok then Holds
-  else if negb core || (negb spend_ok && negb (k1 || k3)) || (negb prop_ok && negb k2) then FailsUnknown
-  else if negb spend_ok then FailsKnown (if k1 then 1 else 3)
-  else FailsKnown 2.
+  verdict_of core spend_ok prop_ok (known_collateral_plutus ops) (known_stale_spend ops) (known_prop_nonscript ops).
